@@ -423,7 +423,13 @@ func concRetention(r *rng, dist map[string]int) []cFail {
 		}
 		if !lost {
 			_ = c.s.Close(ctx)
-			<-c.done
+			select {
+			case <-c.done:
+			case <-time.After(wakeBound):
+				fails = append(fails, cFail{"C09:close-does-not-wake", fmt.Sprintf("consumer %d (%v) blocked in Next was not woken by Close within %v", i, c.scope, wakeBound)})
+				cancel()
+				<-c.done
+			}
 		}
 		c.mu.Lock()
 		got := append([]cRecv(nil), c.recv...)
